@@ -60,7 +60,7 @@ var driverLeak atomic.Bool
 // runMyClient plays a script over the client end of the connection.
 func runMyClient(conn net.Conn, script []Stmt, results []StmtResult) (err error) {
 	addr := registerMyDial(conn)
-	db, err := sql.Open("mysql", "sim@sim("+addr+")/sim")
+	db, err := sql.Open("mysql", "sim@sim("+addr+")/sim?maxAllowedPacket=67108864")
 	if err != nil {
 		return err
 	}
